@@ -142,3 +142,10 @@ pub fn real_handshake(
     .ok()?;
     Some(packet.encode(&remote.node_id()))
 }
+
+impl super::WhoAreYouRef {
+    /// The nonce of the packet that made the handler ask for a WHOAREYOU.
+    pub fn verif_message_nonce(&self) -> MessageNonce {
+        self.1
+    }
+}
